@@ -47,6 +47,7 @@ func tagSSIParser(doc *Parser, start *Token, arguments *Parser) (INodeTag, *Erro
 			var buf []byte
 			if err == nil {
 				buf, err = io.ReadAll(fd)
+				closeReader(fd)
 			}
 			if err != nil {
 				return nil, (&Error{
